@@ -36,7 +36,7 @@ static int lanes_of(Kind k) { return k == KX ? 2 : k == KY ? 4 : k == KZ ? 8 : 1
   X(IMUL2) X(IMUL3) X(MUL) X(IMUL1) X(CQO) X(IDIV) X(CDQ) X(IDIV32) X(CMPXCHG) X(CMPXCHGM) \
   X(MOVZX8) X(MOVZX16) X(MOVSX8) X(MOVSX16) X(MOVSXD) X(MOV8) X(MOV16) X(MOVI8) X(MOVHI8) X(MOVZXHI) X(ADD8) \
   X(INC) X(DEC) X(NEG) X(NOT) X(INC32) X(LOAD) X(STORE) X(ADDM) X(ADDST) X(BTSET) X(SETLT) X(CMOVLT) X(XCHG) \
-  X(STKST) X(STKLD) X(STKADD) X(ADDC) X(MADD) \
+  X(STKST) X(STKLD) X(STKADD) X(ADDC) X(MADD) X(ADDADC) X(SUBSBB) \
   X(VMOV_VG) X(VMOV_GV) X(VMOVD_VG) X(VMOVD_GV) X(VMOV) X(PADDD) X(PADDQ) X(PSUBD) X(PXOR) X(PCMPEQD) \
   X(VPADDD) X(VPADDQ) X(VPXOR) X(VPSUBQ) X(VPTERNLOG) X(PEXTRQ) X(PINSRQ) X(PSHUFD) X(PUNPCKLQDQ) X(VLOAD) X(VSTORE) X(VPADDQM) X(VBCAST) \
   X(KMOV_KG) X(KMOV_GK) X(KMOV) X(KAND) X(KOR) X(KXOR) X(KXNOR) X(KANDN) X(KNOT) X(KADD) X(KSHL) \
@@ -307,6 +307,9 @@ static void interp(const Prog& p, const Input& in, uint64_t mem_ptr, Outcome& ou
       case O_STKADD: A[0] += stk[size_t(I.imm)]; break;
       case O_ADDC: A[0] += imm; break;
       case O_MADD: A[0] = b * c + A[0]; break;
+      // carry chains: add b,c ; adc a,imm   /   sub b,c ; sbb a,imm   (the second instruction consumes the carry / borrow of the first)
+      case O_ADDADC: { uint64_t x = v[size_t(I.b)].q[0] & WM, y = v[size_t(I.c)].q[0] & WM, r = (x + y) & WM; uint64_t cy = r < x ? 1 : 0; v[size_t(I.b)].q[0] = r; A[0] = (A[0] + imm + cy) & WM; break; }
+      case O_SUBSBB: { uint64_t x = v[size_t(I.b)].q[0] & WM, y = v[size_t(I.c)].q[0] & WM, r = (x - y) & WM; uint64_t bw = x < y ? 1 : 0; v[size_t(I.b)].q[0] = r; A[0] = (A[0] - imm - bw) & WM; break; }
       // ---- vectors: lanes of 64 bits, L = lanes of the destination kind ----
       case O_VMOV_VG: for (int k = 0; k < 8; k++) A[k] = 0; A[0] = b; break;                 // (v)movq v, r64 : zero-extends
       case O_VMOV_GV: A[0] = b; break;
@@ -522,6 +525,8 @@ struct EmitX86 {
       case O_STKST: E(cc.mov(S(imm, WB(a)), G(a))); break;
       case O_STKLD: E(cc.mov(G(a), S(imm, WB(a)))); break;
       case O_STKADD: E(cc.add(G(a), S(imm, WB(a)))); break;
+      case O_ADDADC: E(cc.add(G(b), G(c))); E(cc.adc(G(a), imm)); break;
+      case O_SUBSBB: E(cc.sub(G(b), G(c))); E(cc.sbb(G(a), imm)); break;
       case O_ADDC: { ConstPoolScope sc = (imm & 1) ? ConstPoolScope::kGlobal : ConstPoolScope::kLocal; x86::Mem m = WB(a) == 4 ? cc.new_uint32_const(sc, uint32_t(imm)) : cc.new_uint64_const(sc, uint64_t(imm)); E(cc.add(G(a), m)); break; }
       // vectors
       case O_VMOV_VG: if (p.avx) E(cc.vmovq(V(a).xmm(), G(b))); else E(cc.movq(V(a).xmm(), G(b))); break;
@@ -1053,9 +1058,9 @@ struct Fill { int slot; int alpha; int pat; };
 struct Desc { int arch = 0 /* 0 x64 native, 1 x86-32 simulated, 2 AArch64 simulated */; int shape = 0, K = 0, n = 1, am = 6, vm = 0; std::vector<Fill> fills; int x = 0 /* shape specific extra parameter */; };
 static const char* const kArchName[] = {"x64", "x86", "a64"};
 
-enum { SH_STRAIGHT, SH_DIAMOND, SH_LOOP, SH_NESTED, SH_LOOPCOND, SH_IRREDUCIBLE, SH_JT3, SH_JT2, SH_CALLMID, SH_CALLLOOP, SH_TWOCALLS, SH_LOOPLOCAL_E, SH_LOOPLOCAL_L, SH_MARSHAL, SH_MANYARGS, SH_SWAPLOOP, SH_TWOJT, SH__COUNT };
-static const char* const kShapeName[] = {"straight", "diamond", "loop", "nested-loop", "loop-cond", "irreducible", "jumptable3", "jumptable2", "call-mid", "call-loop", "two-calls", "loop-local-early", "loop-local-late", "call-args", "many-args", "swap-loop", "two-jumptables"};
-static const int kShapeSlots[] = {2, 4, 4, 4, 4, 4, 4, 3, 2, 2, 3, 4, 4, 2, 2, 2, 4};
+enum { SH_STRAIGHT, SH_DIAMOND, SH_LOOP, SH_NESTED, SH_LOOPCOND, SH_IRREDUCIBLE, SH_JT3, SH_JT2, SH_CALLMID, SH_CALLLOOP, SH_TWOCALLS, SH_LOOPLOCAL_E, SH_LOOPLOCAL_L, SH_MARSHAL, SH_MANYARGS, SH_SWAPLOOP, SH_TWOJT, SH_SWAPLOOP2, SH__COUNT };
+static const char* const kShapeName[] = {"straight", "diamond", "loop", "nested-loop", "loop-cond", "irreducible", "jumptable3", "jumptable2", "call-mid", "call-loop", "two-calls", "loop-local-early", "loop-local-late", "call-args", "many-args", "swap-loop", "two-jumptables", "swap-loop-reload"};
+static const int kShapeSlots[] = {2, 4, 4, 4, 4, 4, 4, 3, 2, 2, 3, 4, 4, 2, 2, 2, 4, 2};
 
 enum { NEED_RDX = 1, NEED_AB_DISTINCT = 2, NEED_XMM_ONLY = 4, NEED_VEX = 8, NEED_NOT_Z = 16, NEED_BC_DISTINCT = 32, NEED_64 = 64, NEED_NATIVE = 128, NEED_3REGS = 256 };
 
@@ -1178,6 +1183,10 @@ static const Alpha kAlpha[] = {
   {"bt-setc", 0, 3, "ggg", 0, GEN { UNUSED; b.I(O_BTSET, x, y, z); }},
   {"cmp-setl", 0, 3, "ggg", 0, GEN { UNUSED; b.I(O_SETLT, x, y, z); }},
   {"cmp-cmovl", 0, 3, "ggg", 0, GEN { UNUSED; b.I(O_CMOVLT, x, y, z); }},
+  {"add-adc0", 0, 3, "ggg", NEED_NATIVE, GEN { UNUSED; b.I(O_ADDADC, x, y, z, 0); }},
+  {"add-adc5", 0, 3, "ggg", NEED_NATIVE, GEN { UNUSED; b.I(O_ADDADC, x, y, z, 5); }},
+  {"sub-sbb0", 0, 3, "ggg", NEED_NATIVE, GEN { UNUSED; b.I(O_SUBSBB, x, y, z, 0); }},
+  {"sub-sbb5", 0, 3, "ggg", NEED_NATIVE, GEN { UNUSED; b.I(O_SUBSBB, x, y, z, 5); }},
   // ---- vectors (value mode 1/3/4) ----
   {"vmovq-vg", 1, 2, "vg", 0, GEN { UNUSED; b.I(O_VMOV_VG, x, y); }},
   {"vmovq-gv", 1, 2, "gv", 0, GEN { UNUSED; b.I(O_VMOV_GV, x, y); }},
@@ -1486,6 +1495,24 @@ static bool build_prog(const Desc& d, PB& b) {
       for (int k = 0; k < 10; k++) { if (k == pos) { ci.args.push_back(tv); p.call10_ptype[size_t(k)] = kP[pi]; p.call10_mask[size_t(k)] = bits_mask(pos < 6 ? std::min(pbits, gp_bits(tk)) : pbits); } else if (k == 5) ci.args.push_back(-1000 - 77); else ci.args.push_back(b.dv[size_t(k) % b.dv.size()]); }
       b.slot(1);
       b.extra.push_back(r);
+      break;
+    }
+    case SH_SWAPLOOP2: {
+      // shifts by two different variable counts + a value that is re-defined in every iteration: inside the loop the last value is
+      // saved and reloaded (clean) while the first one is written (dirty), and the back edge exchanges their registers.
+      // x = trip count of the loop (a constant; do-while form, the header is entered by falling through)
+      int lh = b.label(); int ctr = b.tmp("n");
+      b.I(O_SHR, L, F);
+      b.I(O_MOVI, ctr, -1, -1, d.x > 0 ? d.x : 4);
+      b.bind(lh);
+      b.I(O_SHR, L, L);
+      b.slot(0);
+      b.I(O_LOAD, F, -1, -1, 8, gp_bits(p.kinds[size_t(F)]) / 8);
+      b.I(O_SHL, S, S);
+      b.I(O_SHL, F, L);
+      b.slot(1);
+      b.br(O_DECJNZ, ctr, lh);
+      b.I(O_SHL, S, L);
       break;
     }
     case SH_SWAPLOOP: {
@@ -1803,7 +1830,7 @@ int main(int argc, char** argv) {
   }
 
   g_dry = c.opt("dry") == "1";
-  std::vector<int> all_shapes; for (int i = 0; i < SH__COUNT; i++) if (i != SH_MARSHAL && i != SH_MANYARGS && i != SH_SWAPLOOP && i != SH_TWOJT) all_shapes.push_back(i);
+  std::vector<int> all_shapes; for (int i = 0; i < SH__COUNT; i++) if (i != SH_MARSHAL && i != SH_MANYARGS && i != SH_SWAPLOOP && i != SH_TWOJT && i != SH_SWAPLOOP2) all_shapes.push_back(i);
   std::vector<Config> cfg1, cfg2;
   std::string bound;
   auto add_k = [&](std::vector<Config>& v, int K, std::initializer_list<int> ams) {
@@ -1872,6 +1899,14 @@ int main(int argc, char** argv) {
     std::vector<Config> sw;
     for (int vm : {6, 0, 5}) for (int K : {0, 4, 3}) for (int n : {2, 3, 5}) { if (!c.thorough() && vm != 6 && !(K == 0 && n == 3)) continue; sw.push_back(Config{K, n, 6, vm}); }
     if (!g_stop) enumerate(sw, 1, {SH_SWAPLOOP});
+    // register exchange between a clean (reloaded) and a dirty register at a loop back edge
+    std::vector<Config> sw2;
+    for (int vm : {0, 5, 6}) for (int K : {0, 4, 3}) for (int n : {3, 4, 5}) { if (!c.thorough() && (vm != 0 || n == 4)) continue; sw2.push_back(Config{K, n, 6, vm}); }
+    if (!g_stop) enumerate(sw2, 1, {SH_SWAPLOOP2});
+    // a value that is live only around a back edge and whose liveness bit is in the upper half of a bit word (33..64 multi-block registers)
+    std::vector<Config> ll;
+    for (int n : {40, 56}) { Config cf{0, n, 6, 0}; if (!c.thorough()) cf.pats = 0x01; ll.push_back(cf); }
+    if (!g_stop) enumerate(ll, 1, {SH_LOOPLOCAL_E, SH_LOOPLOCAL_L});
     // two annotated indirect jumps into one set of targets
     std::vector<Config> tj;
     for (int x = 0; x < 4; x++) for (auto kn : {std::make_pair(3, 2), std::make_pair(3, 3), std::make_pair(3, 5), std::make_pair(0, 20)}) {
@@ -1890,7 +1925,7 @@ int main(int argc, char** argv) {
   c.n("transitions") = c.n("traces");
   for (auto& kv : g_shape_count) c.n(("shape_" + kv.first).c_str()) = kv.second;
   c.strs["bound"] = bound + (g_stop ? " (capped by the deadline)" : "");
-  c.strs["rule"] = "programs = arch{x64 native, x86-32 simulated, AArch64 simulated} x shape{straight,diamond,loop,nested-loop,loop-cond,irreducible,jumptable3,jumptable2,call-mid,call-loop,two-calls,loop-local-early,loop-local-late (a value live only around the back edge),swap-loop (fixed-register instructions force a register exchange at the back edge),two-jumptables (two annotated indirect jumps into one set of 2-3 targets with different live-in sets, a call before the second jump, both annotation orders),call-args (argument marshalling: typed 8/16/32/64-bit register x wider parameter x register/stack position),many-args (16 arguments, 32-byte aligned stack variable, call with stack arguments; also int16_t arguments in 32-bit registers)} x register file K x pressure x "
+  c.strs["rule"] = "programs = arch{x64 native, x86-32 simulated, AArch64 simulated} x shape{straight,diamond,loop,nested-loop,loop-cond,irreducible,jumptable3,jumptable2,call-mid,call-loop,two-calls,loop-local-early,loop-local-late (a value live only around the back edge),swap-loop (fixed-register instructions force a register exchange at the back edge),swap-loop-reload (shifts by two variable counts and a value re-defined in the loop: exchange of a clean and a dirty register at the back edge),two-jumptables (two annotated indirect jumps into one set of 2-3 targets with different live-in sets, a call before the second jump, both annotation orders),call-args (argument marshalling: typed 8/16/32/64-bit register x wider parameter x register/stack position),many-args (16 arguments, 32-byte aligned stack variable, call with stack arguments; also int16_t arguments in 32-bit registers)} x register file K x pressure x "
                    "argument mode x value mode{gp64, xmm, ymm, zmm, k-mask, gp32, mixed gp64/gp32} x slot fillings (alphabet of " + std::to_string(kAlphaCount) + " instruction forms x operand pattern{first/second/last/same-twice}); every program is built with the Compiler and allocated; "
                    "x64: assembled and executed natively on 4 data tuples x every control input (branch both ways, loops 0/1/3 trips, every jump-table target); x86-32/AArch64: the allocated node list is interpreted by engine/msim.h on the same inputs; "
                    "compared with the direct interpretation of the IR: return value, memory buffer (+ guards / any store outside buffer and stack), external-call log; callee-saved registers and stack pointer preserved; "
